@@ -3,7 +3,8 @@
 /verif/seeded/<Cxx>-m<i>/ with the confirmation recorded.  Does not evaluate (tools/eval_all.py does)."""
 import json, os, shutil, subprocess, sys
 p = sys.argv[1]
-wt = "/tmp/mut-%s" % p
+wt = sys.argv[sys.argv.index("--wt") + 1] if "--wt" in sys.argv else "/tmp/mut-%s" % p
+off = int(sys.argv[sys.argv.index("--offset") + 1]) if "--offset" in sys.argv else 0
 for i in (1, 2, 3):
     md = os.path.join(wt, "out", "m%d" % i)
     if not os.path.isdir(md):
@@ -18,7 +19,7 @@ for i in (1, 2, 3):
     print(p, "m%d" % i, "confirmed" if ok else "NOT CONFIRMED", res or out[-3:])
     if not ok:
         continue
-    dst = "/verif/seeded/%s-m%d" % (p, i)
+    dst = "/verif/seeded/%s-m%d" % (p, i + off)
     shutil.rmtree(dst, ignore_errors=True)
     os.makedirs(dst)
     for f in ("patch.diff", "demo.rs", "demo.diff", "meta.json"):
